@@ -1,7 +1,7 @@
 package main
 
 // C13, static part: the lock structure of package env, regenerated from the source on every run
-// (go/ast).  For every method of *Env: each access to the maps `values` / `types` through the
+// (go/ast).  For every method of *Env: each access to the maps `values` / `types` and to the field `externalLookup` through the
 // receiver with the lock state at that point, and the sequence of lock acquisitions on the
 // receiver's scope (direct, or through a call of another locking method on the same receiver).
 
@@ -42,7 +42,7 @@ type lockWalker struct {
 
 func (w *lockWalker) isField(e ast.Expr) (string, bool) {
 	if s, ok := e.(*ast.SelectorExpr); ok {
-		if id, ok := s.X.(*ast.Ident); ok && id.Name == w.recv && (s.Sel.Name == "values" || s.Sel.Name == "types") {
+		if id, ok := s.X.(*ast.Ident); ok && id.Name == w.recv && (s.Sel.Name == "values" || s.Sel.Name == "types" || s.Sel.Name == "externalLookup") {
 			return s.Sel.Name, true
 		}
 	}
